@@ -678,6 +678,8 @@ def load_subscript(it, obj, k):
     if isinstance(obj, Vec):
         if hasattr(k, "as_mask"):
             k = k.as_mask()
+        if isinstance(k, IndexVals) and k.labels is None and k.n == len(obj.v) and (obj.aligned or obj.fresh):
+            return obj                                # ser[<its own table's index>]: the whole Series
         if isinstance(k, IndexVals) and k.labels is not None:
             lab = Vec(list(k.labels))                 # an Index object used as an array of labels
             lab.exact = True
@@ -800,6 +802,31 @@ def store_subscript(it, obj, k, v, aug=False):
         if not isinstance(col, str):
             raise Undecided(f"table store with key {k!r}")
         n = obj.n
+        if isinstance(mask, IndexVals) and mask.labels is None and mask.n == n and getattr(mask, "kind", obj.index) == obj.index:
+            mask = None                                   # .loc[<the table's own index>, col]: every row
+        if isinstance(mask, IndexVals) and mask.labels is not None:
+            lab = Vec(list(mask.labels))
+            lab.exact = True
+            mask = lab
+        if isinstance(mask, Vec) and mask.exact and obj.labels is not None and mask.v is not None and all(isinstance(i, int) and not isinstance(i, bool) for i in mask.v) \
+                and not (len(mask.v) == n and all(isinstance(i, bool) for i in mask.v)):
+            # .loc[<array of labels>, col] = values: one value per listed label
+            missing = [i for i in mask.v if i not in obj.labels]
+            if missing:
+                raise Raised("KeyError", f"labels {missing} not in index")
+            pos = [obj.labels.index(i) for i in mask.v]
+            vals = list(v.v) if isinstance(v, Vec) else [v] * len(pos)
+            if isinstance(v, Vec) and v.labels is not None and sorted(v.labels) == sorted(mask.v):
+                vals = [v.v[v.labels.index(i)] for i in mask.v]              # aligned by label
+            elif len(vals) != len(pos):
+                raise Raised("ValueError", "Must have equal len keys and value when setting with an iterable")
+            newcol = list(obj.cols[col].v) if col in obj.cols else [None] * n
+            for p_, x in zip(pos, vals):
+                newcol[p_] = x
+            obj.cols[col] = Vec(newcol, aligned=True)
+            if obj.exact:
+                obj.cols[col].exact = True
+            return
         if isinstance(mask, RowLabel):
             mask = mask.i
         if isinstance(mask, int) and not isinstance(mask, bool):
